@@ -52,4 +52,13 @@ CHECKS = {
         "assumptions": SIM_ASSUME,
         "stages": [sim_stage(1500, 25000, shrinktime="20s")],
     },
+    "C14": {
+        "pkg": "c14", "level": "exploration", "exhaustive_claim": True,
+        "rule": "small-scope exhaustive generator: every digraph (self-loops included) on 1..4 named steps and loop-free edge sets on 5 steps (quick: 2^16 stride sample selected by VERIF_SEED; thorough: all 2^20), each also with one dangling dependency name; plus rapid-generated graphs of up to 40 steps with planted cycles (long cycle, self-loop, back edge, two disjoint cycles), dangling names, duplicate depends entries, permuted declaration order. Oracle: NewExecutionGraph accepts iff all names resolve and an independent three-colour DFS finds no cycle. Non-trivial: graph has >=1 edge. Distinct: enumeration members are distinct by construction (counted), random graphs by hash.",
+        "assumptions": ["step names are distinct (the property says so)", "exhaustive=true refers only to the sub-spaces listed in exhaustive_subspaces"],
+        "stages": [
+            {"name": "enum", "run": "TestExhaustive", "kind": "plain", "shards": 16, "timeout": {"quick": 600, "thorough": 1800}},
+            sim_stage(1500, 20000),
+        ],
+    },
 }
